@@ -27,6 +27,8 @@ func init() {
 		Assumptions: []string{"sync.Mutex, sync.Once and channel close/receive give the happens-before edges of the Go memory model", "builders are used by one goroutine (documented: builders are not thread-safe)"},
 		Run:         runC18,
 		Mutants: []Mutant{
+			{Name: "instance-created-outside-the-lock", File: "go/ir/instantiate.go", Rule: "R18.3", KeyPart: "generic.instances::lookup-and-insert-in-one-critical-section",
+				Old: "\tinst, ok := gen.instances[key]\n\tif !ok {\n\t\tinst = createInstance(fn, rtargs, targs)\n", New: "\tinst, ok := gen.instances[key]\n\tif !ok {\n\t\tgen.instancesMu.Unlock()\n\t\tinst = createInstance(fn, rtargs, targs)\n\t\tgen.instancesMu.Lock()\n"},
 			{Name: "edge-skipped-for-merely-done-task", File: "go/ir/task.go", Rule: "R18.6", KeyPart: "edge-omitted-only-if-target-transitively-done",
 				Old: "\tif x == y || y.isTransitivelyDone() {\n", New: "\tif x == y || y.isDone() {\n",
 				More: []Edit{{File: "go/ir/task.go", Old: "// addEdge creates an edge from x to y, indicating that\n", New: "func (x *task) isDone() bool {\n\tif x == nil {\n\t\treturn true\n\t}\n\tselect {\n\tcase <-x.done:\n\t\treturn true\n\tdefault:\n\t\treturn false\n\t}\n}\n\n// addEdge creates an edge from x to y, indicating that\n"}}},
@@ -349,7 +351,25 @@ func runC18(c *Ctx) {
 			key := FuncKey(fn) + "::" + m.name
 			ok, path := MustPassEdges(fn, up, miss)
 			c.Check(key+"::insert-only-on-miss", up.Pos(), ok && len(miss) > 0, "the memo table is filled only on the miss edge of its own lookup (create exactly once); path: %s", PathString(fn, path))
-			c.Check(key+"::same-key", up.Pos(), AddrKeyOfLoad(up.Key) == AddrKeyOfLoad(lk.Index) || up.Key == lk.Index, "the key inserted is the key that was looked up")
+			// check-then-act is one critical section: no Unlock of a mutex held at
+		// the lookup lies on a path from the lookup to the insertion (two
+		// builders that both miss would each create their own function).
+		{
+			released := ""
+			for _, op := range LockOps(fn) {
+				if !op.Unlock || op.Deferred {
+					continue
+				}
+				if held, _ := HeldAt(fn, lk, op.Path); !held {
+					continue
+				}
+				if ReachesFrom(fn, lk, op.Instr) && ReachesFrom(fn, op.Instr, up) {
+					released = op.Path
+				}
+			}
+			c.Check(key+"::lookup-and-insert-in-one-critical-section", up.Pos(), released == "", "the mutex held at the lookup (%s) is released before the insertion: two builders can both miss and both create the function, so it is no longer created exactly once", released)
+		}
+		c.Check(key+"::same-key", up.Pos(), AddrKeyOfLoad(up.Key) == AddrKeyOfLoad(lk.Index) || up.Key == lk.Index, "the key inserted is the key that was looked up")
 			c.Check(key+"::inserts-created-function", up.Pos(), DerivesLocal(up.Value, isCreate), "the value inserted is the function just created")
 			// creation only on the miss edge
 			Instrs(fn, false, func(in ssa.Instruction) {
